@@ -292,4 +292,58 @@ theorem counter_bytes_value (c : Counter) (hl : c.low < 4294967296) :
 /-- non-vacuity / the carry: 0x00_ffff_ffff + 1 = 0x01_0000_0000 -/
 example : ({ low := 4294967295, high := 0 } : Counter).increment = { low := 0, high := 1 } := by decide
 
+/-! ### C16: the nonce the nRF52 CCM is configured with -/
+
+theorem incN_value (n : Nat) (c : Counter) (hl : c.low < 4294967296) (hh : c.high < 256) :
+    (Counter.incN n c).value = (c.value + n) % 1099511627776 ∧ (Counter.incN n c).low < 4294967296
+      ∧ (Counter.incN n c).high < 256 := by
+  induction n generalizing c with
+  | zero =>
+    simp only [Counter.incN]
+    refine ⟨?_, hl, hh⟩
+    unfold Counter.value
+    omega
+  | succ n ih =>
+    simp only [Counter.incN]
+    obtain ⟨h1, h2, h3⟩ := counter_increment_succ c hl hh
+    obtain ⟨i1, i2, i3⟩ := ih c.increment h2 h3
+    refine ⟨?_, i2, i3⟩
+    rw [i1, h1]
+    omega
+
+/-- **C16**, "the nonce is never reused": the packet counter octets written into the CCM configuration after
+    `i` and after `j` calls of `increment_*_packet_counter()` since `configure_encryption()` reset the
+    counter give different 13 octet nonces (same direction, same IV) for `i ≠ j` below 2^39 — together with
+    `rx_counter_eq_new_nonempty` / `tx_counter_eq_acked_nonempty` (the number of calls is the number of
+    acknowledged non-empty PDUs): two different PDUs of one direction never get the same nonce, a
+    retransmission gets the nonce of the original. -/
+theorem ccm_nonce_no_reuse (i j : Nat) (hi : i < 549755813888) (hj : j < 549755813888) (hne : i ≠ j)
+    (dir : Nat) (iv : List Nat) :
+    specNonce ((Counter.incN i .zero).bytes, dir, iv) ≠ specNonce ((Counter.incN j .zero).bytes, dir, iv) := by
+  obtain ⟨a1, a2, a3⟩ := incN_value i .zero (by decide) (by decide)
+  obtain ⟨b1, b2, b3⟩ := incN_value j .zero (by decide) (by decide)
+  have va : (Counter.incN i .zero).value = i := by rw [a1]; simp only [Counter.value, Counter.zero]; omega
+  have vb : (Counter.incN j .zero).value = j := by rw [b1]; simp only [Counter.value, Counter.zero]; omega
+  rw [(counter_bytes_value _ a2).1, (counter_bytes_value _ b2).1, va, vb]
+  simp only [specNonce]
+  intro h
+  simp only [List.cons_append, List.nil_append, List.cons.injEq] at h
+  omega
+
+/-- … and it has the specified layout: packet counter little endian in octets 0..4 (39 bit), direction bit
+    on top, then the IV (IVm octets, then IVs octets) -/
+theorem ccm_nonce_layout (n : Nat) (hn : n < 549755813888) (dir : Nat) (hd : dir < 2) (ivm ivs : List Nat) :
+    specNonce ((Counter.incN n .zero).bytes, dir, ((Ccm.init.setup ivm ivs).iv))
+      = [n % 256, n / 256 % 256, n / 65536 % 256, n / 16777216 % 256, n / 4294967296 + 128 * dir] ++ ivm ++ ivs := by
+  obtain ⟨a1, a2, a3⟩ := incN_value n .zero (by decide) (by decide)
+  have va : (Counter.incN n .zero).value = n := by rw [a1]; simp only [Counter.value, Counter.zero]; omega
+  rw [(counter_bytes_value _ a2).1, va]
+  simp only [specNonce, Ccm.setup, List.cons_append, List.nil_append, List.cons.injEq, and_true, true_and]
+  omega
+
+/-- non-vacuity: receive side after three counted PDUs, IVm = 24 ab dc ba, IVs = be ba af de (Core spec sample data) -/
+example : ((((Ccm.init.setup [0x24, 0xab, 0xdc, 0xba] [0xbe, 0xba, 0xaf, 0xde]).configure true false).incRx.incRx.incRx).receiveTrain).2.map specNonce
+    = some [3, 0, 0, 0, 128, 0x24, 0xab, 0xdc, 0xba, 0xbe, 0xba, 0xaf, 0xde] := by decide
+example : (Counter.incN 3 .zero).bytes = [3, 0, 0, 0, 0] := by decide
+
 end BluetoeModel.LlData
